@@ -145,9 +145,8 @@ Definition kw_ISRC : list N := [73; 83; 82; 67].
 Definition kw_FLAGS : list N := [70; 76; 65; 71; 83].
 Definition kw_PRE : list N := [80; 82; 69].
 
-(* one line of the loop, mod.rs:3620-3723 *)
-Definition parse_line (st : pstate) (raw : list N) : res pstate :=
-  let line := trim raw in
+(* one line of the loop after `line.trim()`, mod.rs:3622-3722 *)
+Definition parse_trimmed (st : pstate) (line : list N) : res pstate :=
   let '(kw, rest) := match split_once 32 line with Some p => p | None => (line, []) end in
   if list_eqb kw kw_CATALOG then
     match rest with
@@ -234,6 +233,9 @@ Definition parse_line (st : pstate) (raw : list N) : res pstate :=
       end
     end
   else Ok st.
+
+(* mod.rs:3620-3621 *)
+Definition parse_line (st : pstate) (raw : list N) : res pstate := parse_trimmed st (trim raw).
 
 Fixpoint parse_lines (st : pstate) (ls : list (list N)) : res pstate :=
   match ls with
